@@ -964,7 +964,8 @@ def w1_walk(ctx):
     init = [s for s in fn.body if isinstance(s, ast.Assign) and s.lineno < wl.lineno]
     b = sym.Bindings(fn)
     v0 = b.reaching(vl, wl)
-    p0, c0 = b.reaching(prev, wl), b.reaching(cur, wl)
+    p0 = b.resolve(ast.Name(id=prev, ctx=ast.Load()), at=wl)
+    c0 = b.resolve(ast.Name(id=cur, ctx=ast.Load()), at=wl, keep=(start,))
     ok_init = isinstance(v0, ast.List) and len(v0.elts) == 1 and H.is_name(v0.elts[0], start) and H.is_name(p0, start) \
         and isinstance(c0, ast.Subscript) and isinstance(c0.value, ast.Call) and au.call_tail(c0.value) == "vertex_to_vertices" \
         and len(c0.value.args) == 1 and H.is_name(c0.value.args[0], start)
